@@ -31,6 +31,7 @@ type Contract struct {
 	Appends  []*Clause // slices whose spare capacity this function is declared to own
 	GhostArgs []*GhostArg
 	SumNonneg bool // opt-in: the non-negativity lemma of folds
+	SumCount  bool // opt-in: the counting lemmas of folds (one-point change, all zeros, all ones)
 	HeapFacts bool // opt-in: quantified well-typed-heap axioms and operand-side append facts
 	HeapFactTypes []string // optional: only the heaps of these types get the axioms
 	Entry    []*EntryGhost
@@ -56,6 +57,12 @@ type Clause struct {
 	Line  int
 	Props []string // override: clause-level property tags
 	Label string
+	// Group: proof group of a loop invariant ("[C12:kind]"). The obligations of a
+	// grouped invariant are attempted without the assumed invariants of the other
+	// groups of the same function (ungrouped clauses are always kept). Dropping
+	// assumptions is sound; it keeps independent arguments over the same loops
+	// (sums here, key sets there) from slowing each other down.
+	Group string
 }
 
 type AnchoredAssert struct {
@@ -108,7 +115,7 @@ var clauseKeywords = map[string]bool{
 	"func": true, "extern": true, "props": true, "requires": true, "ensures": true,
 	"loop": true, "modifies": true, "ghost": true, "safety": true, "pure": true,
 	"pred": true, "ghostvar": true, "at": true, "trusted": true, "may_panic": true,
-	"let": true, "specfun": true, "axiom": true, "noinline": true, "sumnonneg": true, "heapfacts": true, "appends": true, "end": true,
+	"let": true, "specfun": true, "axiom": true, "noinline": true, "sumnonneg": true, "sumcount": true, "heapfacts": true, "appends": true, "end": true,
 	"entry": true, "modset": true, "exit": true, "global": true, "assumed": true, "alloc_limit": true,
 }
 
@@ -184,7 +191,13 @@ func parseContracts(path string) (*Contracts, error) {
 		if strings.HasPrefix(t, "[") {
 			if j := strings.Index(t, "]"); j > 0 {
 				for _, p := range strings.Split(t[1:j], ",") {
-					cl.Props = append(cl.Props, strings.TrimSpace(p))
+					p = strings.TrimSpace(p)
+					// "C12:kind": proof group of the clause (see Clause.Group)
+					if k := strings.Index(p, ":"); k > 0 {
+						cl.Group = p[k+1:]
+						p = p[:k]
+					}
+					cl.Props = append(cl.Props, p)
 				}
 				t = strings.TrimSpace(t[j+1:])
 			}
@@ -313,6 +326,23 @@ func parseContracts(path string) (*Contracts, error) {
 				cur.NoInline = true
 			case "sumnonneg":
 				cur.SumNonneg = true
+			case "sumcount":
+				// optional [Cxx,Cyy]: only in the checks of those properties
+				txt := strings.TrimSpace(r.text)
+				on := true
+				if strings.HasPrefix(txt, "[C") {
+					if j := strings.Index(txt, "]"); j > 0 {
+						on = checkProp == ""
+						for _, p := range strings.Split(txt[1:j], ",") {
+							if strings.TrimSpace(p) == checkProp {
+								on = true
+							}
+						}
+					}
+				}
+				if on {
+					cur.SumCount = true
+				}
 			case "heapfacts":
 				// optional leading [Cxx,Cyy]: only in the checks of those properties
 				txt := strings.TrimSpace(r.text)
